@@ -159,6 +159,11 @@ type hcase struct {
 	// more event of the subscribed type for every event published from outside (a re-entrant
 	// publish from inside a hook)
 	HookPub bool `json:"hook_publishes,omitempty"`
+	// HandlerPub: the subscription's handler reacts to an event by publishing follow-up
+	// events of its own type on the bus it is subscribed on (once per event, also while
+	// SubscribeWithReplay is still replaying): an original event n gets the follow-ups
+	// 1000+2n and 1001+2n, the first of which gets one more, 2000+2n
+	HandlerPub bool `json:"handler_publishes,omitempty"`
 }
 
 func (c hcase) String() string {
@@ -176,6 +181,9 @@ func (c hcase) String() string {
 	if c.HookPub {
 		s += " before-publish hook that publishes"
 	}
+	if c.HandlerPub {
+		s += " the subscription's handler publishes follow-up events"
+	}
 	if c.At != 0 {
 		s += fmt.Sprintf(" fault=%s@op%d", c.Fault, c.At)
 	}
@@ -191,6 +199,8 @@ type deliv struct {
 type world struct {
 	timeout bool
 	hookPub bool
+	hdlrPub bool
+	pubd    map[int]bool // follow-up events already published (by any run)
 	med     *stores.Medium
 	hd      *stores.Handle
 	fs      *fstore
@@ -308,6 +318,21 @@ func (w *world) subscribe(i int) {
 		// positions saved so far are tracked eagerly so that "was its position
 		// saved before this delivery" is exact
 		w.trackSaved()
+		if w.hdlrPub {
+			var next []int
+			switch {
+			case e.N < 1000:
+				next = []int{1000 + 2*e.N, 1001 + 2*e.N}
+			case e.N < 2000 && e.N%2 == 0:
+				next = []int{1000 + e.N}
+			}
+			for _, n := range next {
+				if !w.pubd[n] {
+					w.pubd[n] = true
+					eventbus.Publish(w.bus, A{N: n})
+				}
+			}
+		}
 	})
 	w.subEr[i] = err != nil
 }
@@ -341,7 +366,7 @@ func runHistoryBody(c hcase) []string {
 		vrt.MachineryFault("%v", err)
 	}
 	defer hd.Close()
-	w := &world{med: med, hd: hd, timeout: c.Timeout, hookPub: c.HookPub}
+	w := &world{med: med, hd: hd, timeout: c.Timeout, hookPub: c.HookPub, hdlrPub: c.HandlerPub, pubd: map[int]bool{}}
 	w.fs = &fstore{st: hd.Store, str: hd.Stream, sub: hd.Sub, at: c.At, kind: c.Fault}
 	w.newBus()
 	at := w.fs.at
@@ -377,14 +402,34 @@ func runHistoryBody(c hcase) []string {
 	}
 	// drain: restart, subscribe every id, no faults
 	w.fs.at = 0
-	w.newBus()
-	for i := range ids {
-		w.subscribe(i)
-		if w.subEr[i] {
-			w.bad("the draining SubscribeWithReplay(%s) failed without any fault", ids[i])
+	if !c.HandlerPub {
+		w.newBus()
+		for i := range ids {
+			w.subscribe(i)
+			if w.subEr[i] {
+				w.bad("the draining SubscribeWithReplay(%s) failed without any fault", ids[i])
+			}
+		}
+		w.observeSaved("the final drain")
+	} else {
+		// a handler that publishes makes the drain itself grow the log: every id is drained
+		// in a run of its own, again and again until a whole round persists nothing new
+		// (the follow-ups are finite: at most three per original event)
+		for round := 0; round < 8; round++ {
+			before := len(w.rawEvents())
+			for i := range ids {
+				w.newBus()
+				w.subscribe(i)
+				if w.subEr[i] {
+					w.bad("the draining SubscribeWithReplay(%s) failed without any fault", ids[i])
+				}
+				w.observeSaved("the final drain")
+			}
+			if len(w.rawEvents()) == before {
+				break
+			}
 		}
 	}
-	w.observeSaved("the final drain")
 	// oracle
 	raw := w.rawEvents()
 	var persisted []int
@@ -861,6 +906,28 @@ func run(c *h.Check) {
 				c.Count("nontrivial", 1)
 				for _, m := range runHistory(hc) {
 					c.Violate("history", sigOf(hc, m)+" (a before-publish hook publishes too)", hc.String()+"\n"+m, hc)
+				}
+			}
+		}
+		// the subscription's handler publishes follow-up events of its own type
+		if k == "memory" || k == "sqlite" || k == "sqlite-batch2" {
+			for _, ops := range histories(3) {
+				idx++
+				if !c.Mine(idx) {
+					continue
+				}
+				twoIDs := false
+				for _, o := range ops {
+					twoIDs = twoIDs || (o.K == "sub" && o.ID == 1)
+				}
+				if twoIDs {
+					continue // one publishing subscription: what two of them do to each other's order through nested dispatch is C01's subject
+				}
+				hc := hcase{Kind: k, Ops: ops, HandlerPub: true}
+				c.Count("evaluations", 1)
+				c.Count("nontrivial", 1)
+				for _, m := range runHistory(hc) {
+					c.Violate("history", sigOf(hc, m)+" (the handler publishes follow-up events)", hc.String()+"\n"+m, hc)
 				}
 			}
 		}
